@@ -102,10 +102,20 @@ def _damage(rng, sc, label):
     return state, [["flip", j, off]]
 
 
+DUP_LABEL = "two entries with identical multi-piece content (independent copies: one pieces root, one piece layers entry)"
+
+
+def _dup_tree(r, pl):
+    """independent copies of the same multi-piece content first and last in the listing, a different file between them"""
+    x = r.randbytes(r.choice([2 * pl + 9, 3 * pl, pl + 1]))
+    return {("a",): x, ("b",): r.randbytes(r.choice([5, pl + 3])), ("c", "a"): bytes(bytearray(x))}
+
+
 def _aimed_payloads(tier):
     """(class, payload name or None, tree maker, metafile kinds): the directory whose only file is named like it (and the
-       nested variant) for every v2-view kind, and multi-file payloads for the metafiles of another encoder whose ordinary
-       files carry attr x / h / xh (plain and with pad entries)"""
+       nested variant) for every v2-view kind, multi-file payloads for the metafiles of another encoder whose ordinary
+       files carry attr x / h / xh (plain and with pad entries), and a payload in which two entries have identical content
+       (the damaged states hit one copy or the file between them)"""
     same = rc.V2_KINDS + ["v1", "ref-v1"]
     out = [
         (rc.SAME_NAME_LABEL, "data", lambda r, pl: {("data",): r.randbytes(pl + 9)}, same),
@@ -113,8 +123,10 @@ def _aimed_payloads(tier):
         (rc.ATTR_LABEL, None, lambda r, pl: {("a.sh",): r.randbytes(pl + 9), ("b",): b"", (".hidden",): r.randbytes(100),
                                              ("d", "run"): r.randbytes(2 * pl)}, rc.ATTR_KINDS + ["v1-align"]),
     ]
+    out.append((DUP_LABEL, None, _dup_tree, rc.V2_KINDS + ["v1", "ref-v1"]))
     if tier == "thorough":
         out += [
+            (DUP_LABEL, None, _dup_tree, rc.V2_KINDS + ["v1-align", "ref-v1-attr"]),
             (rc.SAME_NAME_LABEL, "data", lambda r, pl: {("data",): r.randbytes(r.choice([1, pl, 3 * pl + 5]))}, same),
             (rc.ATTR_LABEL, None, lambda r, pl: {("x",): r.randbytes(pl), ("y",): r.randbytes(pl - 1), ("z",): r.randbytes(3)},
              rc.ATTR_KINDS),
